@@ -1,17 +1,101 @@
 import EpdVerif.Drivers.Dsl
 import EpdVerif.Gen.Epd2in9d
-/-! model of `src/epd2in9d/mod.rs` (STUB: programs not yet transcribed) -/
+/-! model of `src/epd2in9d/mod.rs` -/
 namespace EpdVerif.Drivers.Epd2in9d
 open EpdVerif
 open EpdVerif.Gen.Epd2in9d
 
-def prog (_f : Feat) (_d : DState) : Op → Option (List Act)
+def W : Act := .wait IS_BUSY_LOW
+
+def init : List Act :=
+  [.reset 10000 2000] ++
+  cmdData Command.PanelSetting [0x1f, 0x0D] ++
+  cmdData Command.ResolutionSetting [0x80, 0x01, 0x28] ++
+  [.cmd Command.PowerOn, W] ++
+  cmdData Command.VcomAndDataIntervalSetting [0x97]
+
+def setLutHelper (vcom ww bw wb bb : Bytes) : List Act :=
+  cmdData Command.LutForVcom vcom ++
+  cmdData Command.LutWhiteToWhite ww ++
+  cmdData Command.LutBlackToWhite bw ++
+  cmdData Command.LutWhiteToBlack wb ++
+  cmdData Command.LutBlackToBlack bb
+
+def setLut (r : Option Refresh) : List Act :=
+  (match r with | some m => [Act.upd (fun d => { d with refresh := m })] | none => []) ++
+  setLutHelper LUT_VCOM1 LUT_WW1 LUT_BW1 LUT_WB1 LUT_BB1
+
+def setPartReg : List Act :=
+  [.reset 10000 2000] ++
+  cmdData Command.PowerSetting [0x03, 0x00, 0x2b, 0x2b, 0x03] ++
+  cmdData Command.BoosterSoftStart [0x17, 0x17, 0x17] ++
+  cmdData Command.PanelSetting [0xbf, 0x0D] ++
+  cmdData Command.PllControl [0x3C] ++
+  cmdData Command.ResolutionSetting [0x80, 0x01, 0x28] ++
+  cmdData Command.VcmDcSetting [0x12] ++
+  setLut none ++
+  [.cmd Command.PowerOn, W]
+
+def sleep : List Act :=
+  [.upd (fun d => { d with partialFlag := false })] ++
+  cmdData Command.VcomAndDataIntervalSetting [0xf7] ++
+  [.cmd Command.PowerOff, W, .delayUs 100000] ++
+  cmdData Command.DeepSleep [0xA5]
+
+def updateFrame (d : DState) (b : Bytes) : List Act :=
+  (if d.partialFlag then [Act.upd (fun d => { d with partialFlag := false })] else []) ++
+  [W, .cmd Command.DataStartTransmission1, .rep 0xFF EPD_ARRAY] ++
+  cmdData Command.DataStartTransmission2 b ++
+  [.upd (fun d => { d with oldData := b })]
+
+def updatePartialFrame (d : DState) (b : Bytes) (x y width height : Nat) : List Act :=
+  let xa := x - x % 8
+  (if !d.partialFlag then
+     setPartReg ++ [Act.upd (fun d => { d with partialFlag := true })]
+   else []) ++
+  [.cmd Command.PartialIn, .cmd Command.PartialWindow,
+   .data [u8 xa]] ++
+  -- `((x - x % 8) + width - 1) - 1`
+  assertA (xa + width ≥ 1) ++ assertA (xa + width - 1 ≥ 1) ++
+  [.data [u8 ((xa + width - 1) - 1)],
+   .data [u8 (y / 256)],
+   .data [u8 (y % 256)]] ++
+  -- `(y + height - 1) / 256`
+  assertA (y + height ≥ 1) ++
+  [.data [u8 ((y + height - 1) / 256)]] ++
+  -- `(y + height - 1) % 256 - 1`
+  assertA ((y + height - 1) % 256 ≥ 1) ++
+  [.data [u8 ((y + height - 1) % 256 - 1)],
+   .data [0x28]] ++
+  cmdData Command.DataStartTransmission1 d.oldData ++
+  cmdData Command.DataStartTransmission2 b ++
+  [.upd (fun d => { d with oldData := b })]
+
+def displayFrame : List Act := [.cmd Command.DisplayRefresh, .delayUs 1000, W]
+
+def clearFrame : List Act :=
+  [.cmd Command.DataStartTransmission1, .rep 0x00 EPD_ARRAY,
+   .cmd Command.DataStartTransmission2, .rep 0xFF EPD_ARRAY] ++ displayFrame
+
+def prog (_f : Feat) (d : DState) : Op → Option (List Act)
+  | .new => some init
+  | .wake => some init
+  | .sleep => some sleep
+  | .upd b => some (updateFrame d b)
+  | .part b x y w h => some (updatePartialFrame d b x y w h)
+  | .disp => some displayFrame
+  | .updisp b => some (updateFrame d b ++ displayFrame)
+  | .clear => some clearFrame
+  | .bg c => some [.upd (fun d => { d with bg := c })]
+  | .lut r => some (setLut r)
+  | .wait => some [W]
   | _ => none
 
 def panel (f : Feat) : Panel :=
   { name := "epd2in9d", width := WIDTH, height := HEIGHT, single := SINGLE_BYTE_WRITE,
     busyLow := IS_BUSY_LOW, family := .uc, colors := 2,
-    init := { bg := DEFAULT_BACKGROUND_COLOR },
+    init := { bg := DEFAULT_BACKGROUND_COLOR, refresh := .full, oldData := [],
+              partialFlag := false },
     prog := prog f,
     ctrl := .uc (Uc.por WIDTH HEIGHT 1 7 false) }
 
